@@ -136,3 +136,14 @@ Proof. reflexivity. Qed.
 Theorem callback_throw_surfaces : forall idn ids rt c,
   rt <> RTwo -> cb_call idn ids rt (CbThrow c) = CE c.
 Proof. intros idn ids rt c H. destruct rt; try reflexivity. contradiction. Qed.
+
+(* each(1, function(x){}) with each func(int, ...func(int)): the function is first
+   tried as the whole variadic tail, "converts" to a slice of as many zero values
+   as it declares parameters, and Go receives a nil func where the script passed
+   a function; element-wise conversion (what happens for two functions) gives the function *)
+Theorem variadic_single_function_refuted :
+  call false false 6 [TNum KI; TSlice TFunc] true [JNum (KI64, 1); JFun 1] = CV (GVStruct [GVI KI 1; GVSlice [GVNil]]) /\
+  call true true 6 [TNum KI; TSlice TFunc] true [JNum (KI64, 1); JFun 1] = CV (GVStruct [GVI KI 1; GVSlice [GVFunc]]) /\
+  call false false 6 [TNum KI; TSlice TFunc] true [JNum (KI64, 1); JFun 1; JFun 1] =
+    CV (GVStruct [GVI KI 1; GVSlice [GVFunc; GVFunc]]).
+Proof. vm_compute. repeat split. Qed.
